@@ -293,7 +293,9 @@ fn judge(case: &c13::Case, run: &c13::Run, ctx: &mut CaseCtx) {
     // at most three follow-ups per question within any 2 s
     for (name, qtype, t) in &followups {
         let n = followups.iter().filter(|f| f.0 == *name && f.1 == *qtype && f.2 >= *t && f.2 < *t + 2000).count();
-        if n > 3 {
+        // (a host shared by several unresolved instances is asked for by each of them)
+        let sharers: BTreeSet<Name> = rx.iter().filter(|x| wire::srv_of(x.2).is_some_and(|(_, h)| h.lower() == *name)).map(|x| x.2.name.lower()).collect();
+        if n > 3 * sharers.len().max(1) {
             fail!("C19/other/more-than-three-follow-ups", "{} follow-up queries for {} {} within 2 s from +{} ms", n, name.to_escaped(), type_name(*qtype), t - T0);
         }
     }
